@@ -91,6 +91,11 @@ def run_job(job, timeout_ms=10000, second_opinion=False):
         s.add(*ex.facts[:ex.n_pre_facts])
         vac = s.check()
         out["vacuous"] = (vac == z3.unsat)
+        ra = getattr(job.contract, "required_asserts", [])
+        miss_a = [a for a in ra if ex.labels.get(("stmtcnt", a), 0) == 0]
+        if miss_a:
+            out["inapplicable"] = f"{job.func}: statements the contract asserts on no longer exist: {miss_a}"
+            return out
         out["missing_loops"] = [k for k in job.contract.loops if ("loopcnt", k) not in ex.labels
                                 and not any(isinstance(x, tuple) and x[0] == "loopcnt" and
                                             (x[1] == k or (x[1] + "#" in k)) for x in ex.labels)]
